@@ -205,12 +205,12 @@ PROPS = {
     },
     "C07": {
         "harness": "c07",
-        "imports": ["Base", "Nonce", "Store", "Check12", "Pool", "CheckPool"],
-        "case_type": "pool_case",
-        "check": "pool_check",
-        "diag": "pool_diag",
-        "theories": ["theories/Base.v", "theories/Nonce.v", "theories/Store.v", "theories/StoreProofs.v", "theories/Pool.v", "theories/PoolProofs.v", "theories/BalanceProofs.v", "theories/Conc.v", "theories/ConcProofs.v", "theories/Locks.v", "theories/LocksProofs.v", "gen/Facts.v"],
-        "check_theories": ["theories/Check12.v", "theories/CheckPool.v"],
+        "imports": ["Base", "Nonce", "Store", "Check12", "Pool", "CheckPool", "Deposit", "Check07"],
+        "case_type": "c07_any",
+        "check": "c07_any_check",
+        "diag": "c07_any_diag",
+        "theories": ["theories/Base.v", "theories/Nonce.v", "theories/Store.v", "theories/StoreProofs.v", "theories/Pool.v", "theories/PoolProofs.v", "theories/BalanceProofs.v", "theories/Conc.v", "theories/ConcProofs.v", "theories/Locks.v", "theories/LocksProofs.v", "gen/Facts.v", "theories/Deposit.v", "theories/DepositProofs.v"],
+        "check_theories": ["theories/Check12.v", "theories/CheckPool.v", "theories/Check07.v"],
         "level_text": "Coq theorems over the payment-service model: a withdrawal is executed iff settlement is enabled, "
                       "deposit + credit meets the minimum and the settlement succeeds; it pays exactly that balance minus "
                       "the fee; it leaves deposit + credit = 0; an immediate repeat pays none of the earnings again "
@@ -218,7 +218,7 @@ PROPS = {
                       "what the pool owes by paid + fee; racing withdrawals interleaved with any other requests remove "
                       "from the ledger exactly what each settled. Tied to the code by in-kernel evaluation on "
                       "accrual/withdrawal histories of the real PaymentService (settle handler recording amounts, "
-                      "failing on scripted attempts), both drivers, and by racing withdrawals of one wallet. Racing withdrawals: the keyed-lock model (Locks.v) proves mutual exclusion for a lock whose map entry is never removed, for any number of racing requests and any schedule, refutes the entry-removing variant with a chain of three, and the shape of Withdraw's lock is a fact regenerated from the source; staged chains of 3-5 overlapping withdrawals are forced on the real service through a settlement gate. The production wiring is exercised as well: payment.ContractPayment as balance store and its OpSettle as settlement, over the real VipnodePool contract deployed on go-ethereum's simulated chain (deposits, timelocked deposits, fee styles, minimum, immediate repeats with the first settlement still pending), with paid amount, remaining deposit and remaining credit read from the chain and the ledger.",
+                      "failing on scripted attempts), both drivers, and by racing withdrawals of one wallet. Racing withdrawals: the keyed-lock model (Locks.v) proves mutual exclusion for a lock whose map entry is never removed, for any number of racing requests and any schedule, refutes the entry-removing variant with a chain of three, and the shape of Withdraw's lock is a fact regenerated from the source; staged chains of 3-5 overlapping withdrawals are forced on the real service through a settlement gate. The production wiring is exercised as well: payment.ContractPayment as balance store and its OpSettle as settlement, over the real VipnodePool contract deployed on go-ethereum's simulated chain (deposits, timelocked deposits, fee styles, minimum, immediate repeats with the first settlement still pending), with paid amount, remaining deposit and remaining credit read from the chain and the ledger, and compared in-kernel with the deposit-cache model (Deposit.v: cache in front of the contract, pending settlements, Balance events at mining, pool restarts), for which Coq proves that no history pays a wallet more than it put in and earned and that an immediate repeat pays nothing, and refutes the event-only cache refresh of the pinned code (D29).",
         "level_note": "Trusted: Coq kernel; the settle handler and deposit proxy are harness code standing for the "
                       "contract (settlement sets the on-chain balance to the new balance 0); withdrawals are serialized "
                       "by the service mutex (Go sync.Mutex).",
@@ -287,7 +287,7 @@ PROPS = {
         "check": "c08_check",
         "mismatch_is_violation": True,
         "theories": ["theories/Base.v", "theories/Nonce.v", "theories/Store.v", "theories/StoreProofs.v",
-                     "theories/ReqHosts.v", "theories/ReqHostsProofs.v", "gen/Facts.v"],
+                     "theories/ReqHosts.v", "theories/ReqHostsProofs.v", "gen/Facts.v", "theories/Agent.v", "theories/Compose.v"],
         "check_theories": ["theories/Check08.v"],
         "level_text": "Coq theorems over the requestHosts model, for every store answer satisfying the ActiveHosts "
                       "contract, every registry and every assignment of whitelist outcomes: each returned host is an "
@@ -317,7 +317,7 @@ PROPS = {
         "check": "c09_check",
         "diag": "c09_diag",
         "mismatch_is_violation": True,
-        "theories": ["theories/Base.v", "theories/ReqHosts.v", "theories/ReqHostsProofs.v", "gen/Facts.v"],
+        "theories": ["theories/Base.v", "theories/ReqHosts.v", "theories/ReqHostsProofs.v", "gen/Facts.v", "theories/Agent.v", "theories/Compose.v"],
         "check_theories": ["theories/Check08.v"],
         "level_text": "Coq theorems over the registry model for every history of registrations and closes (no "
                       "registration arrives on a closed connection): a host is instructable, and on exactly which "
@@ -434,7 +434,7 @@ PROPS = {
         "case_type": "c18_case",
         "check": "c18_check",
         "diag": "c18_diag",
-        "theories": ["theories/Base.v", "theories/Agent.v", "theories/AgentProofs.v"],
+        "theories": ["theories/Base.v", "theories/Agent.v", "theories/AgentProofs.v", "theories/Nonce.v", "theories/Store.v", "theories/ReqHosts.v", "theories/ReqHostsProofs.v", "theories/Compose.v"],
         "check_theories": ["theories/Check18.v"],
         "level_text": "Coq theorems over the model of one keep-alive round (a function from the node's peer list and the "
                       "pool's replies to the list of calls made): the peers un-trusted and disconnected are exactly the "
